@@ -146,22 +146,28 @@ def classify(tok):
     return "text"
 
 
-def make_secret(rng, cls, variant=None):
+_RESERVED = None
+
+
+def reserved_words():
+    global _RESERVED
+    if _RESERVED is None:
+        import subprocess
+        code = "import json,sys; sys.path.insert(0,'/repo'); from netconan.default_reserved_words import default_reserved_words as d; print(json.dumps(sorted(d)))"
+        _RESERVED = set(json.loads(subprocess.run(["/venv/bin/python", "-c", code], capture_output=True, text=True).stdout))
+    return _RESERVED
+
+
+def _make_secret(rng, cls, variant=None):
     if cls == "text":
-        while True:
-            n = rng.choice([1, 3, 6, 8, 12, 20])
-            s = "".join(rng.choice(SECRET_CHARS) for _ in range(n))
-            if classify(s) == "text" and not s.startswith("$"):
-                return s
+        n = rng.choice([4, 6, 8, 12, 20])
+        return "".join(rng.choice(SECRET_CHARS) for _ in range(n))
     if cls == "numeric":
-        return "".join(rng.choice(string.digits) for _ in range(rng.choice([1, 4, 5, 8, 12])))
+        return "".join(rng.choice(string.digits) for _ in range(rng.choice([5, 6, 8, 12])))
     if cls == "hex":
-        while True:
-            s = "".join(rng.choice("0123456789abcdefABCDEF") for _ in range(rng.choice([3, 5, 8, 12, 31])))
-            if classify(s) == "hex":
-                return s
+        return "".join(rng.choice("0123456789abcdefABCDEF") for _ in range(rng.choice([5, 7, 8, 12, 31])))
     if cls == "type7":
-        plain = "".join(rng.choice(string.ascii_letters + string.digits) for _ in range(rng.choice([1, 4, 8, 11])))
+        plain = "".join(rng.choice(string.ascii_letters + string.digits) for _ in range(rng.choice([2, 4, 8, 11])))
         return type7_encode(plain, rng.randrange(16) if variant is None else variant)
     if cls == "md5":
         n = rng.choice([1, 2, 4, 8]) if variant is None else variant
@@ -172,6 +178,17 @@ def make_secret(rng, cls, variant=None):
         plain = "".join(rng.choice(string.ascii_letters + string.digits + "!#%") for _ in range(rng.choice([1, 5, 8, 12])))
         return ref_encrypt9(plain, rng.choice(ALPHA9) if variant is None else variant)
     raise ValueError(cls)
+
+
+def make_secret(rng, cls, variant=None):
+    """a secret of format class cls (by the independent classifier), not a reserved word, not starting with '$' unless a hash"""
+    while True:
+        s = _make_secret(rng, cls, variant)
+        if classify(s) != cls or s in reserved_words() or s.lower() in reserved_words():
+            continue
+        if cls == "text" and (s.startswith("$") or s[0] in "-_" or s.isdigit()):
+            continue
+        return s
 
 
 def same_class_variant(secret):
